@@ -65,6 +65,43 @@ class H(Hooks):
         replay_oracles(w, same_too=False)
         w.do_reset()
 
+    def on_invalid(self, w, kind, thunk, desc):
+        """A request the specification refuses.  Refusing it is C09's business; but when it is *accepted* it is an
+        accepted dispatch, and the statement about accepted dispatches is judged on the real schedule itself
+        (the model has no transition for it) before the run is handed to C09."""
+        d, ctx = w.disp, w.ctx
+        before = {id(so) for ml in d.schedule.schedule for so in ml}
+        try:
+            thunk()
+        except Exception:  # noqa: BLE001 - any exception type is a rejection
+            return "rejected"
+        ends = {}
+        for ml in d.schedule.schedule:
+            for so in ml:
+                ends.setdefault((so.operation.job_id, so.operation.position_in_job), so.end_time)
+        for mm, ml in enumerate(d.schedule.schedule):
+            for k, so in enumerate(ml):
+                if id(so) in before:
+                    continue
+                j, pos = so.operation.job_id, so.operation.position_in_job
+                if pos > 0 and (j, pos - 1) not in ends:
+                    ctx.fail("accepted_dispatch_start_is_forced", f"{desc} was accepted: op ({j},{pos}) starts at {so.start_time} although its job predecessor is not scheduled (it has no end)")
+                forced = max(ends[(j, pos - 1)] if pos > 0 else 0, ml[k - 1].end_time if k > 0 else 0)
+                if so.start_time != forced:
+                    ctx.fail("accepted_dispatch_start_is_forced", f"{desc} was accepted: op ({j},{pos}) on m{mm} starts at {so.start_time}, forced start is {forced}")
+        nxt = []
+        for j, job in enumerate(w.inst.jobs):
+            n = 0
+            while n < len(job) and (j, n) in ends:
+                n += 1
+            nxt.append(n)
+        if list(d.job_next_operation_index) != nxt:
+            ctx.fail("tracking_equals_derived", f"{desc} was accepted: job_next_operation_index = {list(d.job_next_operation_index)}, first unscheduled positions in the schedule = {nxt}", field="job_next_operation_index")
+        mav = [max((so.end_time for so in ml), default=0) for ml in d.schedule.schedule]
+        if list(d.machine_next_available_time) != mav:
+            ctx.fail("tracking_equals_derived", f"{desc} was accepted: machine_next_available_time = {list(d.machine_next_available_time)}, derived from schedule = {mav}", field="machine_next_available_time")
+        raise Foreign("C09", f"invalid request accepted: {desc}")
+
 
 def replay_oracles(w, same_too=True):
     """The recorded history re-dispatched must reproduce the schedule."""
